@@ -159,13 +159,59 @@ Proof.
   - unfold req_kwo in *. rewrite (consume_kwonly a b n Ha). exact H4.
 Qed.
 
+Lemma kw_class_pos_consumed_po a : forall n m k,
+  In k (names_of (firstn n a)) ->
+  (forall q, In q (firstn n a) -> pname q = k -> pkind q = PO) ->
+  kw_class_pos a (n + m) k = Some KExtra.
+Proof.
+  induction a as [|p a IH]; intros n m k Hk Hq.
+  - destruct n; destruct Hk.
+  - destruct n as [|n]; [destruct Hk|]. cbn [firstn names_of map] in Hk, Hq. cbn [kw_class_pos Nat.add].
+    destruct (N.eqb_spec k (pname p)) as [E|Hne].
+    + rewrite (Hq p (or_introl eq_refl) (eq_sym E)). reflexivity.
+    + cbn [Nat.pred]. apply IH.
+      * destruct Hk as [X|X]; [exfalso; apply Hne; symmetry; exact X|exact X].
+      * intros q Hin. apply Hq. right. exact Hin.
+Qed.
+
+(* consumption of n leading positionals when the keywords may name consumed
+   POSITIONAL-ONLY parameters (such a keyword goes to the double-star parameter
+   before and after) *)
+Lemma consume_accepts_po a b n m K :
+  all_positional a -> none_positional b -> NoDup (names_of (a ++ b)) ->
+  (n <= length a)%nat \/ has_kind VP b = true ->
+  (forall k, In k K -> forall q, In q (firstn n a) -> pname q = k -> pkind q = PO) ->
+  accepts (skipn n a ++ b) (mkCall m K) = accepts (a ++ b) (mkCall (n + m) K).
+Proof.
+  intros Ha Hb Hn Hfit HK. unfold accepts. cbn [npos kws].
+  destruct (consume_positional a b n Ha Hb) as [E1 E2]. rewrite E1, E2.
+  rewrite (has_kind_skip VP a b n Ha) by tauto.
+  assert (F1 : (Nat.leb m (length (skipn n a)) || has_kind VP (a ++ b))
+               = (Nat.leb (n + m) (length a) || has_kind VP (a ++ b))).
+  { rewrite skipn_length. destruct Hfit as [Hle|Hvp].
+    - f_equal. destruct (Nat.leb_spec m (length a - n)), (Nat.leb_spec (n + m) (length a)); try reflexivity; lia.
+    - unfold has_kind. rewrite existsb_app. fold (has_kind VP b). rewrite Hvp, !orb_true_r. reflexivity. }
+  rewrite F1. f_equal; [f_equal; [f_equal|]|].
+  - apply forallb_ext_in. intros k Hk. unfold kw_ok.
+    rewrite (has_kind_skip VK a b n Ha) by tauto.
+    destruct (in_dec N.eq_dec k (names_of (firstn n a))) as [Hin|Hnin].
+    + assert (Ecl : kw_class (a ++ b) (n + m) k = KExtra).
+      { unfold kw_class. rewrite E2, (kw_class_pos_consumed_po a n m k Hin (HK k Hk)). reflexivity. }
+      rewrite Ecl. rewrite kw_class_foreign; [reflexivity|].
+      rewrite <- (firstn_skipn n a) in Hn. rewrite <- app_assoc, names_of_app in Hn.
+      intros X. exact (nodup_app_disjoint _ _ k Hn Hin X).
+    + rewrite (consume_kw_class a b n Ha Hb m k Hnin). reflexivity.
+  - apply req_pos_skip.
+  - unfold req_kwo. rewrite (consume_kwonly a b n Ha). reflexivity.
+Qed.
+
 (* ------------------------------------------------------------------ *)
 (* _mask without hide flags, both modes                                 *)
 
 Definition st0_of (so : sorted) (n : nat) : kstate :=
   mkK (skipn (n - length (posargs so)) (pokargs so)) (varargs so) (kwoargs so)
       (src_pop_all (ssrc so) (names_of (firstn n (posargs so ++ pokargs so))))
-      (names_of (firstn n (posargs so ++ pokargs so))).
+      (names_of (firstn (n - length (posargs so)) (pokargs so))).
 
 Definition dep_of (so : sorted) (pm : pmode) : depths :=
   match pm with
@@ -248,40 +294,71 @@ Proof.
 Qed.
 End Initial.
 
-(* side conditions on the names *)
-(* no name is a positional-only parameter among the first n (the consumed) ones:
-   _mask raises on those although Python passes such a keyword to **kwargs *)
-Definition avoid_consumed_po (ps : list param) (n : nat) (names0 : list name) : bool :=
-  forallb (fun k => negb (existsb (fun p => is_kind PO p && N.eqb k (pname p)) (firstn n ps))) names0.
+Lemma in_names (q : param) l : In q l -> In (pname q) (names_of l).
+Proof. intros H. unfold names_of. apply in_map. exact H. Qed.
 
-(* no name is the name of a parameter that cannot be passed by keyword
-   (positional-only, *args, **kwargs); foreign names are allowed *)
+(* side conditions on the names (functools.partial mode only) *)
+(* no name is a positional-only parameter that is NOT among the n consumed ones:
+   such a keyword is absorbed by **kwargs and shown as a keyword-only parameter
+   of the same name as the remaining positional-only one *)
+Definition avoid_remaining_po (ps : list param) (n : nat) (names0 : list name) : bool :=
+  forallb (fun k => negb (existsb (fun p => is_kind PO p && N.eqb k (pname p)) (skipn n ps))) names0.
+
+(* no name is the name of a star parameter *)
+Definition names_avoid_stars (ps : list param) (names0 : list name) : bool :=
+  forallb (fun k => negb (existsb (fun p => (is_kind VP p || is_kind VK p) && N.eqb k (pname p)) ps)) names0.
+
+Definition names_passable_n (ps : list param) (n : nat) (names0 : list name) : bool :=
+  avoid_remaining_po ps n names0 && names_avoid_stars ps names0.
+
+(* the stronger condition used before the model change: no name is the name of
+   any parameter that cannot be passed by keyword *)
 Definition names_passable (ps : list param) (names0 : list name) : bool :=
   forallb (fun k => negb (existsb (fun p => negb (is_kwpassable p) && N.eqb k (pname p)) ps)) names0.
 
-Lemma names_passable_spec ps names0 x q :
-  names_passable ps names0 = true -> In x names0 -> In q ps -> pname q = x -> is_kwpassable q = true.
+Lemma names_passable_weaken ps n names0 :
+  names_passable ps names0 = true -> names_passable_n ps n names0 = true.
 Proof.
-  unfold names_passable. intros H Hx Hq E. rewrite forallb_forall in H. specialize (H x Hx).
-  apply negb_true_iff in H. destruct (is_kwpassable q) eqn:Ek; [reflexivity|]. exfalso.
-  assert (X : existsb (fun p => negb (is_kwpassable p) && N.eqb x (pname p)) ps = true).
-  { apply existsb_exists. exists q. split; [exact Hq|]. rewrite Ek, E, N.eqb_refl. reflexivity. }
+  unfold names_passable, names_passable_n, avoid_remaining_po, names_avoid_stars. intros H.
+  rewrite forallb_forall in H. apply andb_true_iff.
+  split; apply forallb_forall; intros x Hx; specialize (H x Hx); apply negb_true_iff in H; apply negb_true_iff.
+  - destruct (existsb (fun p => is_kind PO p && N.eqb x (pname p)) (skipn n ps)) eqn:E; [|reflexivity].
+    apply existsb_exists in E. destruct E as [q [Hq E]]. apply andb_true_iff in E. destruct E as [E1 E2].
+    assert (X : existsb (fun p => negb (is_kwpassable p) && N.eqb x (pname p)) ps = true).
+    { apply existsb_exists. exists q. split.
+      - rewrite <- (firstn_skipn n ps). apply in_or_app. right. exact Hq.
+      - rewrite E2, andb_true_r. unfold is_kind, kind_eqb in E1. unfold is_kwpassable.
+        destruct (pkind q); try discriminate; reflexivity. }
+    rewrite X in H. discriminate.
+  - destruct (existsb (fun p => (is_kind VP p || is_kind VK p) && N.eqb x (pname p)) ps) eqn:E; [|reflexivity].
+    apply existsb_exists in E. destruct E as [q [Hq E]]. apply andb_true_iff in E. destruct E as [E1 E2].
+    assert (X : existsb (fun p => negb (is_kwpassable p) && N.eqb x (pname p)) ps = true).
+    { apply existsb_exists. exists q. split; [exact Hq|].
+      rewrite E2, andb_true_r. unfold is_kind, kind_eqb in E1. unfold is_kwpassable.
+      destruct (pkind q); try discriminate; reflexivity. }
+    rewrite X in H. discriminate.
+Qed.
+
+Lemma avoid_remaining_po_spec ps n names0 x q :
+  avoid_remaining_po ps n names0 = true -> In x names0 -> In q (skipn n ps) -> pname q = x -> pkind q <> PO.
+Proof.
+  unfold avoid_remaining_po. intros H Hx Hq E Ek. rewrite forallb_forall in H. specialize (H x Hx).
+  apply negb_true_iff in H.
+  assert (X : existsb (fun p => is_kind PO p && N.eqb x (pname p)) (skipn n ps) = true).
+  { apply existsb_exists. exists q. split; [exact Hq|]. unfold is_kind. rewrite Ek, E, N.eqb_refl. reflexivity. }
   rewrite X in H. discriminate.
 Qed.
 
-Lemma names_passable_avoid ps n names0 :
-  names_passable ps names0 = true -> avoid_consumed_po ps n names0 = true.
+Lemma names_avoid_stars_spec ps names0 x q :
+  names_avoid_stars ps names0 = true -> In x names0 -> In q ps -> pname q = x ->
+  pkind q <> VP /\ pkind q <> VK.
 Proof.
-  unfold names_passable, avoid_consumed_po. intros H. rewrite forallb_forall in *. intros x Hx.
-  specialize (H x Hx). apply negb_true_iff in H. apply negb_true_iff.
-  destruct (existsb (fun p => is_kind PO p && N.eqb x (pname p)) (firstn n ps)) eqn:E; [|reflexivity].
-  apply existsb_exists in E. destruct E as [q [Hq E]]. apply andb_true_iff in E. destruct E as [E1 E2].
-  assert (X : existsb (fun p => negb (is_kwpassable p) && N.eqb x (pname p)) ps = true).
-  { apply existsb_exists. exists q. split.
-    - rewrite <- (firstn_skipn n ps). apply in_or_app. left. exact Hq.
-    - rewrite E2, andb_true_r. unfold is_kind, kind_eqb in E1. unfold is_kwpassable.
-      destruct (pkind q); try discriminate; reflexivity. }
-  rewrite X in H. discriminate.
+  unfold names_avoid_stars. intros H Hx Hq E. rewrite forallb_forall in H. specialize (H x Hx).
+  apply negb_true_iff in H.
+  split; intros Ek;
+    (assert (X : existsb (fun p => (is_kind VP p || is_kind VK p) && N.eqb x (pname p)) ps = true);
+     [apply existsb_exists; exists q; split; [exact Hq|]; unfold is_kind; rewrite Ek, E, N.eqb_refl; reflexivity|];
+     rewrite X in H; discriminate).
 Qed.
 
 (* ------------------------------------------------------------------ *)
@@ -291,8 +368,7 @@ Section Top.
 Variables (s : sigT) (n : nat) (named : list (name * N)) (pm : pmode).
 Hypothesis Hv : valid_sig (params s) = true.
 Hypothesis Hnd : NoDup (map fst named).
-Hypothesis Hpo : avoid_consumed_po (params s) n (map fst named) = true.
-Hypothesis Hpass : pm <> None -> names_passable (params s) (map fst named) = true.
+Hypothesis Hpass : pm <> None -> names_passable_n (params s) n (map fst named) = true.
 
 Let names0 := map fst named.
 
@@ -313,6 +389,7 @@ Proof.
   destruct (kinds_split s) as [Ha Hb]. fold (rest_of (sort_params s)) in Hb.
   pose proof (st0_inv s n Hv) as Hinv0. pose proof (st0_kps s n) as Ekps.
   pose proof (valid_sig_validate _ Hv) as Hval.
+  destruct (sort_params_kinds s) as (K1 & K2 & K3 & K4 & K5).
   set (so := sort_params s) in *. set (A := posargs so ++ pokargs so) in *. set (B := rest_of so) in *.
   assert (HndAB : NoDup (names_of (A ++ B))) by (rewrite Hf; apply validate_nodup; exact Hval).
   assert (Hdisj : forall c, (pm = None -> disjointb (kws c) names0 = true) ->
@@ -335,7 +412,14 @@ Proof.
       - left. apply Nat.ltb_ge in Hc. exact Hc.
       - right. pose proof (has_vp_rest s) as Hvp. fold so in Hvp. fold B in Hvp. rewrite Hvp.
         apply negb_false_iff in Hc. exact Hc. }
-    set (cons0 := names_of (firstn n A)) in *.
+    set (j := (n - length (posargs so))%nat) in *.
+    set (cons0 := names_of (firstn j (pokargs so))) in *.
+    (* a consumed parameter is positional-only or one of the first j positional-or-keyword ones *)
+    assert (Hsplit : forall q, In q (firstn n A) -> pkind q = PO \/ In q (firstn j (pokargs so))).
+    { intros q Hq. unfold A in Hq. rewrite firstn_app in Hq. apply in_app_or in Hq. destruct Hq as [Hq|Hq].
+      - left. rewrite Forall_forall in K1. apply K1.
+        rewrite <- (firstn_skipn n (posargs so)). apply in_or_app. left. exact Hq.
+      - right. exact Hq. }
     destruct (existsb (fun x => mem x cons0) names0) eqn:Hex.
     + (* a name is one of the consumed positional-or-keyword parameters *)
       apply existsb_exists in Hex. destruct Hex as [x [Hx Hxc]]. apply mem_In in Hxc.
@@ -344,45 +428,49 @@ Proof.
       apply (accepts_bad_kw _ _ _ x); [apply in_or_app; left; exact Hx|].
       rewrite <- Hf. unfold kw_ok, kw_class.
       rewrite positional_app, (positional_all A Ha), (positional_none B Hb), app_nil_r.
-      rewrite (kw_class_pos_consumed_pk A n (npos c) x Hxc); [reflexivity|].
-      intros q Hq E.
-      assert (HqA : In q A) by (rewrite <- (firstn_skipn n A); apply in_or_app; left; exact Hq).
-      pose proof (Ha q HqA) as Hpq. unfold is_positional in Hpq.
-      destruct (pkind q) eqn:Ek; try discriminate; [exfalso|reflexivity].
-      unfold avoid_consumed_po in Hpo. rewrite forallb_forall in Hpo. specialize (Hpo x Hx).
-      apply negb_true_iff in Hpo.
-      assert (X : existsb (fun p => is_kind PO p && N.eqb x (pname p)) (firstn n (params s)) = true).
-      { apply existsb_exists. exists q. split.
-        - rewrite <- Hf, firstn_app. apply in_or_app. left. exact Hq.
-        - unfold is_kind. rewrite Ek, E, N.eqb_refl. reflexivity. }
-      rewrite X in Hpo. discriminate.
-    + (* no name is consumed *)
+      assert (Hj : (0 < j)%nat).
+      { destruct j; [destruct Hxc|lia]. }
+      assert (HxPO : ~ In x (names_of (posargs so))).
+      { intros X. rewrite names_of_app in HndAB. apply nodup_app_l in HndAB. unfold A in HndAB.
+        rewrite names_of_app in HndAB. apply (nodup_app_disjoint _ _ x HndAB X).
+        unfold cons0 in Hxc. unfold names_of in *. apply in_map_iff in Hxc. destruct Hxc as [q [E Hq]].
+        apply in_map_iff. exists q. split; [exact E|].
+        rewrite <- (firstn_skipn j (pokargs so)). apply in_or_app. left. exact Hq. }
+      unfold A. rewrite kw_class_pos_app, (kw_class_pos_foreign _ _ x HxPO).
+      replace (n + npos c - length (posargs so))%nat with (j + npos c)%nat by (unfold j in *; lia).
+      rewrite (kw_class_pos_consumed_pk (pokargs so) j (npos c) x Hxc); [reflexivity|].
+      intros q Hq _. rewrite Forall_forall in K2. apply K2.
+      rewrite <- (firstn_skipn j (pokargs so)). apply in_or_app. left. exact Hq.
+    + (* no name is a consumed positional-or-keyword parameter *)
       assert (Hnc0 : forall x, In x names0 -> ~ In x cons0).
       { intros x Hx Hin. apply mem_In in Hin.
         assert (X : existsb (fun x => mem x cons0) names0 = true)
           by (apply existsb_exists; exists x; split; assumption).
         rewrite X in Hex. discriminate. }
+      assert (Hn0po : forall k, In k names0 -> forall q, In q (firstn n A) -> pname q = k -> pkind q = PO).
+      { intros k Hk q Hq E. destruct (Hsplit q Hq) as [H|H]; [exact H|]. exfalso.
+        apply (Hnc0 k Hk). unfold cons0. rewrite <- E. apply in_names. exact H. }
       assert (Hpm0 : pm <> None -> forall x, In x (map fst named) ->
                 ~ In x (names_of (skipn n (posargs so)) ++ names_of (opt_list (k_va (st0_of so n)))
                         ++ names_of (opt_list (varkwargs so)))).
-      { intros Hp x Hx X. specialize (Hpass Hp).
-        assert (Hq : exists q, In q (params s) /\ pname q = x /\ is_kwpassable q = false).
-        { destruct (sort_params_kinds s) as (K1 & K2 & K3 & K4 & K5). fold so in K1, K2, K3, K4, K5.
-          rewrite <- Hf. unfold A, B, rest_of. cbn [st0_of k_va] in X.
-          apply in_app_or in X. destruct X as [X|X]; [|apply in_app_or in X; destruct X as [X|X]].
-          - unfold names_of in X. apply in_map_iff in X. destruct X as [q [E Hq]]. exists q.
-            assert (HqP : In q (posargs so)).
-            { rewrite <- (firstn_skipn n (posargs so)). apply in_or_app. right. exact Hq. }
-            split; [apply in_or_app; left; apply in_or_app; left; exact HqP|]. split; [exact E|].
-            rewrite Forall_forall in K1. unfold is_kwpassable. rewrite (K1 q HqP). reflexivity.
-          - destruct (varargs so) as [w|] eqn:Ew; [|destruct X]. destruct X as [E|[]]. exists w.
-            split; [apply in_or_app; right; apply in_or_app; left; left; reflexivity|]. split; [exact E|].
-            unfold is_kwpassable. rewrite (K3 w eq_refl). reflexivity.
-          - destruct (varkwargs so) as [w|] eqn:Ew; [|destruct X]. destruct X as [E|[]]. exists w.
-            split; [apply in_or_app; right; apply in_or_app; right; apply in_or_app; right; left; reflexivity|].
-            split; [exact E|]. unfold is_kwpassable. rewrite (K5 w eq_refl). reflexivity. }
-        destruct Hq as (q & Hq1 & Hq2 & Hq3).
-        rewrite (names_passable_spec _ _ x q Hpass Hx Hq1 Hq2) in Hq3. discriminate. }
+      { intros Hp x Hx X. specialize (Hpass Hp). unfold names_passable_n in Hpass.
+        apply andb_true_iff in Hpass. destruct Hpass as [Hp1 Hp2].
+        cbn [st0_of k_va] in X.
+        apply in_app_or in X. destruct X as [X|X]; [|apply in_app_or in X; destruct X as [X|X]].
+        - unfold names_of in X. apply in_map_iff in X. destruct X as [q [E Hq]].
+          apply (avoid_remaining_po_spec _ _ _ x q Hp1 Hx); [|exact E|].
+          + rewrite <- Hf. unfold A. rewrite <- app_assoc, skipn_app. apply in_or_app. left. exact Hq.
+          + rewrite Forall_forall in K1. apply K1.
+            rewrite <- (firstn_skipn n (posargs so)). apply in_or_app. right. exact Hq.
+        - destruct (varargs so) as [w|] eqn:Ew; [|destruct X]. destruct X as [E|[]].
+          assert (Hw : In w (params s)).
+          { rewrite <- Hf. unfold B, rest_of. rewrite Ew. apply in_or_app. right. left. reflexivity. }
+          destruct (names_avoid_stars_spec _ _ x w Hp2 Hx Hw E) as [H _]. apply H. apply K3. reflexivity.
+        - destruct (varkwargs so) as [w|] eqn:Ew; [|destruct X]. destruct X as [E|[]].
+          assert (Hw : In w (params s)).
+          { rewrite <- Hf. unfold B, rest_of. rewrite Ew. apply in_or_app. right.
+            apply in_or_app. right. apply in_or_app. right. left. reflexivity. }
+          destruct (names_avoid_stars_spec _ _ x w Hp2 Hx Hw E) as [_ H]. apply H. apply K5. reflexivity. }
       pose proof (mask_names_chain pm (isSome (varkwargs so)) (skipn n (posargs so)) (varkwargs so)
                                    named (st0_of so n) Hinv0 eq_refl Hnd Hnc0 Hpm0) as Hch.
       destruct (mask_names pm (isSome (varkwargs so)) (st0_of so n) named) as [stf|e]; cbn [bind].
@@ -393,17 +481,18 @@ Proof.
           with (kps (skipn n (posargs so)) (varkwargs so) stf).
         rewrite (KInv_validate _ _ _ Hinvf). cbn [params]. intros [m K] Hd Hnc. cbn [npos kws] in *.
         rewrite (Haccf m K (Hdisj (mkCall m K) Hd)). rewrite Ekps, <- Hf.
-        apply (consume_accepts A B n Ha Hb Hfit (mkCall m (names0 ++ K))). cbn [kws].
-        intros k Hk. apply in_app_or in Hk. destruct Hk as [Hk|Hk]; [exact (Hnc0 k Hk)|].
-        intros Hin. fold cons0 in Hin.
+        apply (consume_accepts_po A B n m (names0 ++ K) Ha Hb HndAB Hfit).
+        intros k Hk. apply in_app_or in Hk. destruct Hk as [Hk|Hk]; [exact (Hn0po k Hk)|].
+        intros q Hq E.
+        assert (Hin : In k (names_of (firstn n A))) by (rewrite <- E; apply in_names; exact Hq).
         unfold noncolliding in Hnc. rewrite forallb_forall in Hnc. specialize (Hnc k Hk).
         assert (HinA : In k (names_of A)).
         { rewrite <- (firstn_skipn n A). rewrite names_of_app. apply in_or_app. left. exact Hin. }
         apply orb_true_iff in Hnc. destruct Hnc as [Hkw|Hfor].
-        -- apply kwpassable_name_In in Hkw. destruct (Hnmf k Hkw) as [H0|[_ H0]]; [|exact (Hnc0 k H0 Hin)].
-           rewrite Ekps in H0. rewrite <- (firstn_skipn n A), <- app_assoc, names_of_app in HndAB.
+        -- apply kwpassable_name_In in Hkw. destruct (Hnmf k Hkw) as [H0|[_ H0]]; [|exact (Hn0po k H0 q Hq E)].
+           exfalso. rewrite Ekps in H0. rewrite <- (firstn_skipn n A), <- app_assoc, names_of_app in HndAB.
            exact (nodup_app_disjoint _ _ k HndAB Hin H0).
-        -- apply negb_true_iff in Hfor. apply mem_false_In in Hfor. apply Hfor.
+        -- exfalso. apply negb_true_iff in Hfor. apply mem_false_In in Hfor. apply Hfor.
            unfold all_names. cbn [flat_map]. rewrite app_nil_r, <- Hf, names_of_app.
            apply in_or_app. left. exact HinA.
       * destruct Hch as (-> & Hff). split; [reflexivity|]. intros [m K] Hd. cbn [npos kws] in *.
@@ -419,10 +508,11 @@ End Top.
 Lemma map_fst_pair {A} (f : name -> A) (l : list name) : map fst (map (fun x => (x, f x)) l) = l.
 Proof. rewrite map_map. cbn [fst]. apply map_id. Qed.
 
-(* for ALL signatures, ALL n, ALL duplicate-free name tuples (foreign names and
-   the names of the star parameters included), ALL calls *)
+(* for ALL signatures, ALL n, ALL duplicate-free name tuples (foreign names, the
+   names of the star parameters and of positional-only parameters included), ALL
+   calls; no side condition on the names is left *)
 Theorem mask_names_exact s n names0 :
-  valid_sig (params s) = true -> NoDup names0 -> avoid_consumed_po (params s) n names0 = true ->
+  valid_sig (params s) = true -> NoDup names0 ->
   match mask s n names0 nohide0 with
   | Ok r => forall c, disjointb (kws c) names0 = true -> noncolliding c (params r) [params s] = true ->
                       accepts (params r) c = accepts (params s) (shift_call n names0 c)
@@ -431,12 +521,10 @@ Theorem mask_names_exact s n names0 :
                        accepts (params s) (shift_call n names0 c) = false
   end.
 Proof.
-  intros Hv Hnd Hpo. unfold mask.
+  intros Hv Hnd. unfold mask.
   pose proof (map_fst_pair (fun _ => 0) names0) as Emap.
   assert (Hnd' : NoDup (map fst (map (fun x => (x, 0)) names0))) by (rewrite Emap; exact Hnd).
-  assert (Hpo' : avoid_consumed_po (params s) n (map fst (map (fun x => (x, 0)) names0)) = true)
-    by (rewrite Emap; exact Hpo).
-  pose proof (mask_gen_exact s n (map (fun x => (x, 0)) names0) None Hv Hnd' Hpo'
+  pose proof (mask_gen_exact s n (map (fun x => (x, 0)) names0) None Hv Hnd'
                              (fun H => False_ind _ (H eq_refl))) as M.
   rewrite Emap in M.
   destruct (mask_gen s n nohide0 (map (fun x => (x, 0)) names0) None) as [r|e].
@@ -444,16 +532,35 @@ Proof.
   - destruct M as [-> M]. split; [reflexivity|]. intros c Hd. exact (M c (fun _ => Hd)).
 Qed.
 
-(* the hypothesis on consumed positional-only names cannot be dropped:
-   mask((a, /, **kw), 1, 'a') raises although (a, /, **kw) accepts f(1, a=2) *)
-Theorem mask_names_exact_refuted :
+(* the input that refuted the statement before the repair of _mask (a keyword
+   named like a CONSUMED positional-only parameter): mask((a, /, **kw), 1, 'a')
+   is now ( **kw), as Python binds f(1, a=2) *)
+Definition po_sig : sigT :=
+  mkSig [mkParam 1 PO None None UEmpty; mkParam 10 VK None None UEmpty] None UEmpty [] [].
+
+Example mask_names_exact_formerly_refuted :
+  valid_sig (params po_sig) = true /\ NoDup [1] /\
+  exists r, mask po_sig 1 [1] nohide0 = Ok r /\
+            params r = [mkParam 10 VK None None UEmpty] /\
+            forall c, disjointb (kws c) [1] = true -> noncolliding c (params r) [params po_sig] = true ->
+                      accepts (params r) c = accepts (params po_sig) (shift_call 1 [1] c).
+Proof.
+  split; [vm_compute; reflexivity|]. split; [constructor; [intros []|constructor]|].
+  pose proof (mask_names_exact po_sig 1 [1] eq_refl (NoDup_cons 1 (fun H : In 1 [] => H) (NoDup_nil _))) as M.
+  assert (E : mask po_sig 1 [1] nohide0
+              = Ok (mkSig [mkParam 10 VK None None UEmpty] None UEmpty [] [])) by (vm_compute; reflexivity).
+  rewrite E in M. eexists. split; [exact E|]. split; [reflexivity|exact M].
+Qed.
+
+(* NoDup cannot be dropped: a repeated name raises, the call with the name
+   passed once is accepted *)
+Theorem mask_names_exact_dup_refuted :
   exists s n names0 c,
-    valid_sig (params s) = true /\ NoDup names0 /\ disjointb (kws c) names0 = true /\
+    valid_sig (params s) = true /\ disjointb (kws c) names0 = true /\
     mask s n names0 nohide0 = Err ValueErr /\ accepts (params s) (shift_call n names0 c) = true.
 Proof.
-  exists (mkSig [mkParam 1 PO None None UEmpty; mkParam 10 VK None None UEmpty] None UEmpty [] []),
-         1%nat, [1], (mkCall 0 []).
-  repeat split; try reflexivity. constructor; [intros []|constructor].
+  exists (mkSig [mkParam 1 PK None None UEmpty] None UEmpty [] []), 0%nat, [1; 1], (mkCall 0 []).
+  repeat split; vm_compute; reflexivity.
 Qed.
 
 (* ------------------------------------------------------------------ *)
@@ -466,8 +573,12 @@ Proof.
   destruct (mem y names0), (mem y K); reflexivity.
 Qed.
 
+(* the bound keywords may name consumed positional-only parameters (absorbed by
+   **kwargs), foreign names, keyword-passable parameters; not a positional-only
+   parameter that remains, nor a star parameter *)
 Theorem partial_names_exact s n kw pobj :
-  valid_sig (params s) = true -> NoDup (map fst kw) -> names_passable (params s) (map fst kw) = true ->
+  valid_sig (params s) = true -> NoDup (map fst kw) ->
+  names_passable_n (params s) n (map fst kw) = true ->
   match sig_partial s n kw pobj with
   | Ok r => forall c, noncolliding c (params r) [params s] = true ->
                       accepts (params r) c = accepts (params s) (partial_call n (map fst kw) c)
@@ -475,8 +586,7 @@ Theorem partial_names_exact s n kw pobj :
   end.
 Proof.
   intros Hv Hnd Hpass. unfold sig_partial.
-  pose proof (mask_gen_exact s n kw (Some pobj) Hv Hnd (names_passable_avoid _ n _ Hpass)
-                             (fun _ => Hpass)) as M.
+  pose proof (mask_gen_exact s n kw (Some pobj) Hv Hnd (fun _ => Hpass)) as M.
   change (mkHide false false false false) with nohide0.
   assert (Hnone : (Some pobj : pmode) = None -> forall c : call, disjointb (kws c) (map fst kw) = true)
     by discriminate.
@@ -488,19 +598,41 @@ Proof.
     exact (M c (fun H => Hnone H c)).
 Qed.
 
-(* the hypothesis cannot be weakened to avoid_consumed_po: binding a keyword
-   named like the double-star parameter gives a duplicate name, signature()
-   raises, yet the partial object can be called *)
+(* names_avoid_stars cannot be dropped: binding a keyword named like the
+   double-star parameter gives a duplicate name, signature() raises, yet the
+   partial object can be called *)
 Theorem partial_names_exact_refuted :
   exists s n kw pobj c,
     valid_sig (params s) = true /\ NoDup (map fst kw) /\
-    avoid_consumed_po (params s) n (map fst kw) = true /\
+    avoid_remaining_po (params s) n (map fst kw) = true /\
     sig_partial s n kw pobj = Err ValueErr /\
     accepts (params s) (partial_call n (map fst kw) c) = true.
 Proof.
   exists (mkSig [mkParam 10 VK None None UEmpty] None UEmpty [] []), 0%nat, [(10, 5)], 200, (mkCall 0 []).
-  repeat split; try reflexivity. constructor; [intros []|constructor].
+  repeat split; try (vm_compute; reflexivity). constructor; [intros []|constructor].
 Qed.
+
+(* avoid_remaining_po cannot be dropped either: partial(f, a=2) with
+   def f(a, /, **kw) shows a twice *)
+Theorem partial_names_exact_refuted_po :
+  exists s n kw pobj c,
+    valid_sig (params s) = true /\ NoDup (map fst kw) /\
+    names_avoid_stars (params s) (map fst kw) = true /\
+    sig_partial s n kw pobj = Err ValueErr /\
+    accepts (params s) (partial_call n (map fst kw) c) = true.
+Proof.
+  exists po_sig, 0%nat, [(1, 5)], 200, (mkCall 1 []).
+  repeat split; try (vm_compute; reflexivity). constructor; [intros []|constructor].
+Qed.
+
+(* the input of the defect report: partial(f, 1, a=2) with def f(a, /, **kw) *)
+Example partial_consumed_po_ok :
+  valid_sig (params po_sig) = true /\ names_passable_n (params po_sig) 1 (map fst [(1, 2)]) = true /\
+  names_passable (params po_sig) (map fst [(1, 2)]) = false /\
+  option_map (fun r => map (fun p => (pname p, pkind p, pdef p)) (params r))
+             (match sig_partial po_sig 1 [(1, 2)] 200 with Ok r => Some r | Err _ => None end)
+  = Some [(1, KO, Some 2); (10, VK, None)].
+Proof. repeat split; vm_compute; reflexivity. Qed.
 
 (* the hypotheses are satisfiable on non-trivial inputs *)
 Definition ex_sig : sigT :=
@@ -515,22 +647,21 @@ Proof.
 Qed.
 
 Example mask_names_exact_nonvacuous :
-  valid_sig (params ex_sig) = true /\ NoDup [3; 77; 4] /\
-  avoid_consumed_po (params ex_sig) 1 [3; 77; 4] = true /\
+  valid_sig (params ex_sig) = true /\ NoDup [3; 1; 4] /\
   option_map (fun r => map (fun p => (pname p, pkind p)) (params r))
-             (match mask ex_sig 1 [3; 77; 4] nohide0 with Ok r => Some r | Err _ => None end)
+             (match mask ex_sig 1 [3; 1; 4] nohide0 with Ok r => Some r | Err _ => None end)
   = Some [(2, PK); (10, VK)].
 Proof.
   split; [vm_compute; reflexivity|]. split; [apply nodup3; discriminate|].
-  split; vm_compute; reflexivity.
+  vm_compute; reflexivity.
 Qed.
 
 Example partial_names_exact_nonvacuous :
-  valid_sig (params ex_sig) = true /\ NoDup (map fst [(2, 5); (77, 6); (4, 7)]) /\
-  names_passable (params ex_sig) (map fst [(2, 5); (77, 6); (4, 7)]) = true /\
+  valid_sig (params ex_sig) = true /\ NoDup (map fst [(2, 5); (1, 6); (4, 7)]) /\
+  names_passable_n (params ex_sig) 1 (map fst [(2, 5); (1, 6); (4, 7)]) = true /\
   option_map (fun r => map (fun p => (pname p, pkind p, pdef p)) (params r))
-             (match sig_partial ex_sig 1 [(2, 5); (77, 6); (4, 7)] 200 with Ok r => Some r | Err _ => None end)
-  = Some [(4, KO, Some 7); (3, KO, Some 1); (2, KO, Some 5); (77, KO, Some 6); (10, VK, None)].
+             (match sig_partial ex_sig 1 [(2, 5); (1, 6); (4, 7)] 200 with Ok r => Some r | Err _ => None end)
+  = Some [(4, KO, Some 7); (3, KO, Some 1); (2, KO, Some 5); (1, KO, Some 6); (10, VK, None)].
 Proof.
   split; [vm_compute; reflexivity|]. split; [apply nodup3; discriminate|].
   split; vm_compute; reflexivity.
@@ -538,8 +669,11 @@ Qed.
 
 Print Assumptions mask_gen_exact.
 Print Assumptions mask_names_exact.
-Print Assumptions mask_names_exact_refuted.
+Print Assumptions mask_names_exact_formerly_refuted.
+Print Assumptions mask_names_exact_dup_refuted.
 Print Assumptions partial_names_exact.
 Print Assumptions partial_names_exact_refuted.
+Print Assumptions partial_names_exact_refuted_po.
+Print Assumptions partial_consumed_po_ok.
 Print Assumptions mask_names_exact_nonvacuous.
 Print Assumptions partial_names_exact_nonvacuous.
